@@ -239,6 +239,15 @@ func runC11(c *core.Case) {
 	if radix && V > 3 { // the list holds a vertical zoom 0 voxel: keep its refinement small
 		V = r.Range(0, 3)
 	}
+	if !square && !cornerShape && !radix && r.P(0.002) { // one ID refined into 1024 or 4096 tiles, under a hostile scheduler width
+		ids = ids[:1]
+		ids[0].H = clampI(ids[0].H, 1, 25)
+		ids[0].X, ids[0].Y = ids[0].X&(pow2(ids[0].H)-1), ids[0].Y&(pow2(ids[0].H)-1)
+		H, V = ids[0].H+r.Range(5, 6), clampI(ids[0].V+r.Range(0, 1), 0, 35)
+		minH, minV = ids[0].H, ids[0].V
+		c.Procs()
+		c.Tag("expansion>=1024-tiles")
+	}
 	veryLong := !square && !cornerShape && !radix && (r.P(0.0003) || (c.Tier == "thorough" && r.P(0.0003)))
 	if veryLong { // 2^15 .. 2^17 + 3 IDs at one zoom pair, converted at their own zooms; a repeated ID far from its twin
 		b0 := ids[0]
@@ -250,6 +259,7 @@ func runC11(c *core.Case) {
 		}
 		ids[n-3] = ids[0]
 		c.Tag("very-long-list")
+		c.Procs()
 	}
 	in := ref.Exts(ids)
 	inCopy := copyStrings(in)
@@ -380,6 +390,66 @@ func runC11(c *core.Case) {
 	if missing, extra, same := ref.SameSet(b2, ref.ExtSet(ref.Change(tiles, H2, V2))); !same || dup2 {
 		c.Fail("quadkey-backward-zoom", nil, "pairs at (%d,%d) converted to (%d,%d): missing %v, unexpected %v, duplicates %v", H, V, H2, V2, missing, extra, dup2)
 		return
+	}
+	// backward on a list that mixes zooms per element, with the same key NUMBER at neighbouring zooms next to each other
+	if r.P(0.06) {
+		var mo []*object.QuadkeyAndVerticalID
+		var mt []ref.ID
+		mh, mv := int64(35), int64(35)
+		for n := 2 + r.Intn(4); len(mt) < n; {
+			var t ref.ID
+			if len(mt) > 0 && r.P(0.6) {
+				p := mt[len(mt)-1]
+				q := ref.Quadkey(p.X, p.Y, p.H)
+				hz := clampI(p.H+[]int64{-1, 1, 2, -2}[r.Intn(4)], 1, 31)
+				if q >= pow2(2*hz) {
+					hz = clampI(p.H+1, 1, 31)
+				}
+				x, y := ref.UnQuadkey(q, hz)
+				t = ref.ID{H: hz, X: x, Y: y, V: p.V, F: p.F}
+				if r.P(0.3) {
+					t.V = clampI(p.V+r.Range(-1, 1), 0, 35)
+					t.F = clampI(t.F, -pow2(t.V), pow2(t.V)-1)
+				}
+			} else {
+				hz := r.Range(1, 31)
+				vz := genZoom(r)
+				t = genID(r, hz, hz, vz, vz)
+				if r.Bool() { // small key numbers exist at every zoom
+					t.X, t.Y = r.Range(0, 3)&(pow2(hz)-1), r.Range(0, 3)&(pow2(hz)-1)
+				}
+			}
+			mt = append(mt, t)
+			mo = append(mo, object.NewQuadkeyAndVerticalID(t.H, ref.Quadkey(t.X, t.Y, t.H), t.V, t.F, 0, 0))
+			if t.H < mh {
+				mh = t.H
+			}
+			if t.V < mv {
+				mv = t.V
+			}
+		}
+		H3, V3 := clampI(mh+r.Range(-2, 1), 0, 35), clampI(mv+r.Range(-2, 1), 0, 35)
+		cost := int64(0)
+		for _, t := range mt {
+			dh, dv := H3-t.H, V3-t.V
+			if dh < 0 {
+				dh = 0
+			}
+			if dv < 0 {
+				dv = 0
+			}
+			cost += pow2(2*dh + dv)
+		}
+		if cost <= 1<<14 {
+			bm, err := transform.ConvertQuadkeysAndVerticalIDsToExtendedSpatialIDs(mo, H3, V3)
+			c.Call()
+			gm, dupm := ref.SetOfExt(bm)
+			if missing, extra, same := ref.SameSet(gm, ref.ExtSet(ref.Change(mt, H3, V3))); err != nil || !same || dupm {
+				c.Fail("quadkey-backward-mixed-zooms", nil, "tiles %v (one key object each, zooms as listed) converted to (%d,%d): err %v, missing %v, unexpected %v, duplicates %v", ref.Exts(mt), H3, V3, err, missing, extra, dupm)
+				return
+			}
+			c.Tag("backward-mixed-zoom-list")
+		}
 	}
 	// spatial-ID backward variant
 	Z := clampI(H+r.Range(-2, 2), 0, 35)
